@@ -19,6 +19,7 @@ func main() {
 	replay := flag.String("replay", "", "replay file (re-evaluates the property and reports whether that obligation still fails)")
 	list := flag.Bool("list", false, "list implemented properties")
 	dump := flag.Bool("dump", false, "print every obligation")
+	dumpL := flag.String("dump-layouts", "", "print derived TL-B layouts of the struct types of a package (audit aid)")
 	flag.Parse()
 	if t := os.Getenv("VERIF_TIER"); t != "" && *tier == "" {
 		*tier = t
@@ -32,6 +33,15 @@ func main() {
 		for _, id := range ids {
 			fmt.Println(id)
 		}
+		return
+	}
+	if *dumpL != "" {
+		c, err := load(nil)
+		if err != nil {
+			fmt.Fprintln(os.Stderr, err)
+			os.Exit(2)
+		}
+		dumpLayouts(c, *dumpL)
 		return
 	}
 	pf, ok := props[*prop]
